@@ -187,7 +187,11 @@ type checker struct {
 	reflected  map[string]bool
 	slotsSeen  int
 	writesSeen int
+	configs    map[string]*schema.Case // "config" family: kind/cnt/bund -> case (neighbouring configurations for edits)
+	frames     int
 }
+
+func cfgKey(kind string, cnt, bund []int) string { return fmt.Sprintf("%s/%v/%v", kind, cnt, bund) }
 
 func (ck *checker) fail(sig, what string, c *schema.Case) {
 	ck.rep.Fail(mbt.Failure{Signature: sig, What: what, Case: caseRec{ID: c.ID(), Case: c}})
@@ -753,6 +757,7 @@ func parsedExperiments(rep *mbt.Report, ck *checker, m *ir.Module, src string, s
 			ck.checkParsedTerm(f, b, src)
 		}
 		ck.checkParsedOperands(users, src)
+		ck.checkFrame(f, users, src)
 		for _, g := range m.Globals {
 			olds = append(olds, g)
 		}
@@ -983,6 +988,11 @@ func corpus(tier string, tabs *schema.Tables, rng *rand.Rand) []source {
 	for i := range progs {
 		if progs[i].Fam == "cover" {
 			out = append(out, source{"cover:" + progs[i].ID, schema.RenderProg(tabs, &progs[i])})
+			// the same body twice in one function: two users with identical operand lists, bundles,
+			// incoming lists, cases (for the frame condition between instructions)
+			if d := schema.DoubleProg(&progs[i]); d != nil {
+				out = append(out, source{"cover2:" + progs[i].ID, schema.RenderProg(tabs, d)})
+			}
 		}
 	}
 	n := 8
@@ -1046,7 +1056,7 @@ func Run(tier, replay string) {
 		t.Cleanup()
 	}
 	// every deviation the model knows must violate its property (the model is sensitive to it)
-	for _, dev := range []string{"HideBundles", "WrapArgs", "CacheSuccs", "CacheOps", "DedupSuccs"} {
+	for _, dev := range []string{"HideBundles", "WrapArgs", "CacheSuccs", "CacheOps", "DedupSuccs", "StickySuccs"} {
 		t := mbt.MustTLC(mbt.TLCOpts{Spec: "Operands", Cfg: "OperandsDev_" + dev + ".cfg", Timeout: 10 * time.Minute})
 		if len(t.Violated) == 0 {
 			mbt.Infra("vacuity guard: Operands.tla with deviation %s violates nothing", dev)
@@ -1056,6 +1066,12 @@ func Run(tier, replay string) {
 
 	if int64(len(cases)) != nConfigStates-1-int64(len(tabs.Kinds)) {
 		mbt.Infra("cases.ndjson has %d rows for %d configuration states", len(cases), nConfigStates-1-int64(len(tabs.Kinds)))
+	}
+	ck.configs = map[string]*schema.Case{}
+	for _, c := range cases {
+		if c.Fam == "config" {
+			ck.configs[cfgKey(c.Kind, c.Cfg.Cnt, c.Cfg.Bund)] = c
+		}
 	}
 	kinds := map[string]bool{}
 	for _, c := range cases {
@@ -1104,6 +1120,7 @@ func Run(tier, replay string) {
 	rep.Extra["configurations"] = len(cases)
 	rep.Extra["slots_checked"] = ck.slotsSeen
 	rep.Extra["slot_writes_checked"] = ck.writesSeen
+	rep.Extra["frame_condition_writes_on_parsed_functions"] = ck.frames
 	rep.Extra["struct_types_cross_checked_by_reflection"] = len(ck.reflected)
 	rep.Extra["rauw_experiments_composed"] = len(recs)
 	rep.Extra["rauw_experiments_parsed"] = len(precs)
